@@ -287,14 +287,28 @@ func (c *codegen) assignElem(lhs ast.Expr, ix *ast.IndexExpr, inner []string, rh
 		q = append(q, fp...)
 		t = ft
 	}
+	var val string
+	var vt gtype
 	if call, ok := rhs.(*ast.CallExpr); ok && isBuiltin(call, "append") && c.lookup("append") == nil {
-		c.fail(at, "append assigned to an element")
+		// code_cblift.go: `X[i] = append(X[i], e)` on a slice of slices whose elements are pairwise disjoint windows
+		// (windowedElems): the append cannot touch a cell that any other live slice value can reach
+		if !(c.phase5 && len(inner) == 0 && elemT.kind == kGSlice && len(call.Args) == 2 && c.src(call.Args[0]) == c.src(lhs) && c.windowedElems(ix.X, at)) {
+			c.fail(at, "append assigned to an element")
+		}
+		a, at2 := c.expr(call.Args[0], gtype{}, false)
+		val, vt = c.appendGSlice(call, a, at2)
+		if !vt.eq(t) {
+			c.fail(at, "assignment of %s to %s of type %s", vt, c.src(lhs), t)
+		}
+	} else if w3, ok := c.window3(ix, rhs, t, at); ok { // code_cblift.go: `X[i] = Y[k:k:k+C]`, a zero-length window
+		val = w3
+	} else {
+		val, vt = c.expr(rhs, t, true)
+		if !vt.eq(t) {
+			c.fail(at, "assignment of %s to %s of type %s", vt, c.src(lhs), t)
+		}
+		c.checkNoSliceAlias(t, nil, rhs, at)
 	}
-	val, vt := c.expr(rhs, t, true)
-	if !vt.eq(t) {
-		c.fail(at, "assignment of %s to %s of type %s", vt, c.src(lhs), t)
-	}
-	c.checkNoSliceAlias(t, nil, rhs, at)
 	sl, _ := c.expr(ix.X, gtype{}, false)
 	idx := c.intIndex(ix.Index)
 	elem := val
@@ -429,7 +443,7 @@ func (c *codegen) checkSig3(fd *ast.FuncDecl, sig *fnSig) {
 						n++
 					}
 				}
-				if (fd.Recv != nil || n != 1) && !(c.phase5 && c.consumedParam(fd, p.name)) { // code_osap.go: a consumed parameter
+				if (fd.Recv != nil || n != 1) && !(c.phase5 && c.consumedParam(fd, p.name)) && !(c.phase5 && liftedSliceParams[fd][p.name]) { // code_osap.go: a consumed parameter; code_cblift.go: a window handed to a lifted closure
 					c.fail(fd, "parameter %s of type %s next to a receiver or another slice parameter (a slice value of the third part may only be passed to a function that can reach no other slice: aliasing)", p.name, p.typ)
 				}
 			}
